@@ -2,6 +2,7 @@ package logging
 
 import (
 	"context"
+	"fmt"
 	"io"
 	"os"
 	"strings"
@@ -178,6 +179,41 @@ func TraceHeaderName(cfg config.LoggingConfig) string {
 		return defaultTraceHeader
 	}
 	return header
+}
+
+// ValidateHeaderNames reports an enabled request-ID or trace feature whose header is
+// not a valid HTTP header field name (an RFC 7230 token). Such a name cannot be carried
+// in an HTTP message: net/http refuses to send the request it was set on, so every
+// proxied request would be answered with 502.
+func ValidateHeaderNames(cfg config.LoggingConfig) error {
+	if cfg.RequestID.Enabled {
+		if name := RequestHeaderName(cfg); !validHeaderFieldName(name) {
+			return fmt.Errorf("logging.request_id.header %q is not a valid HTTP header field name", name)
+		}
+	}
+	if cfg.Trace.Enabled {
+		if name := TraceHeaderName(cfg); !validHeaderFieldName(name) {
+			return fmt.Errorf("logging.trace.header %q is not a valid HTTP header field name", name)
+		}
+	}
+	return nil
+}
+
+// validHeaderFieldName reports whether name is a non-empty RFC 7230 token.
+func validHeaderFieldName(name string) bool {
+	if name == "" {
+		return false
+	}
+	for i := 0; i < len(name); i++ {
+		c := name[i]
+		switch {
+		case 'a' <= c && c <= 'z', 'A' <= c && c <= 'Z', '0' <= c && c <= '9':
+		case strings.IndexByte("!#$%&'*+-.^_`|~", c) >= 0:
+		default:
+			return false
+		}
+	}
+	return true
 }
 
 func contextWithLogger(ctx context.Context, logger *zerolog.Logger, reqID, traceID string) context.Context {
